@@ -309,6 +309,73 @@ class AioRunner:
             await asyncio.sleep(0)
         return obs_list
 
+    # ---------------------------------------------------------------- the loop driven in slices
+    def run_sliced(self, loop):
+        """explicit-loop style: Scheduler(loop=loop), the loop runs in `run_until_complete` slices that end as soon as
+        the driver's own future is done (other tasks may have steps queued), and between two slices synchronous code
+        deletes jobs while no loop is running. Spec-only family (the model only knows idle points)."""
+        import scheduler.asyncio as saio
+
+        self.sched = saio.Scheduler(loop=loop, tzinfo=tz_of(self.scn.get("tz")), logger=self.logger)
+        self.logger.handlers = [self.handler]
+        self.cop_errors = []
+        obs_list = self.obs_list = []
+
+        async def inside(o):
+            if o["op"] == "sch":
+                o["clock"] = CLOCK.instant
+                return ("j", self.do_sched(o, o.get("runs") or [self.dflt]))
+            if o["op"] == "slice":
+                # a slice that ends after `yields` trips through the ready queue, without waiting for the loop to get idle
+                for _ in range(o.get("yields", 1)):
+                    await asyncio.sleep(0)
+                return ("u",)
+            if o["op"] == "run":
+                d = (o["until"] - CLOCK.instant) / 1e6
+                await asyncio.sleep(d if d > 0 else 0)
+                for _ in range(200000):
+                    if not loop._ready:
+                        break
+                    await asyncio.sleep(0)
+                return ("u",)
+            raise ValueError(o["op"])
+
+        for o in self.scn["ops"]:
+            obs = {"res": None}
+            self.events = []
+            try:
+                if o["op"] in ("sch", "slice", "run"):
+                    obs["res"] = loop.run_until_complete(inside(o))
+                elif o["op"] == "del":
+                    self.sched.delete_job(self.created[o["key"]])          # no loop is running now
+                    self.trace.append(("D", o["key"]))
+                    obs["res"] = ("u",)
+                elif o["op"] == "dtags":
+                    before = set(self.key_of[id(j)] for j in self.sched.jobs)
+                    obs["res"] = ("c", self.sched.delete_jobs(py_tags(o.get("tags"), "set"), bool(o.get("any", False))))
+                    for kk in sorted(before - set(self.key_of[id(j)] for j in self.sched.jobs)):
+                        self.trace.append(("D", kk))
+                else:
+                    raise ValueError(o["op"])
+            except Exception as e:  # noqa: BLE001
+                obs["res"] = ("e", err_kind(e))
+                obs["exc"] = repr(e)[:200]
+            obs.update({"events": list(self.events), "jobs": self.snapshot(), "logs": 0, "now": CLOCK.instant,
+                        "task_errors": self.task_errors(), "trace": list(self.trace), "arg_failures": [], "probes": [], "prints": []})
+            self.probes = []
+            obs_list.append(obs)
+
+        async def wind_down():
+            try:
+                self.sched.delete_jobs()
+            except Exception:  # noqa: BLE001
+                pass
+            for _ in range(3):
+                await asyncio.sleep(0)
+
+        loop.run_until_complete(wind_down())
+        return obs_list
+
     def run(self):
         loop = VirtualLoop(self.scn["clock0"])
         self.loop = loop
@@ -324,7 +391,7 @@ class AioRunner:
         try:
             asyncio.set_event_loop(loop)
             try:
-                obs = loop.run_until_complete(self.drive(loop))
+                obs = self.run_sliced(loop) if self.scn.get("sliced") else loop.run_until_complete(self.drive(loop))
             except LoopSpin as e:
                 # the implementation never lets the loop get idle (a job runs again and again at one
                 # instant): report what was observed so far plus a marker observation
@@ -418,6 +485,10 @@ def run_scenario(scn):
     dacts = dflt.get("acts", [])
     lines = [f"A {core.s_opt_int(scn.get('tz'))} {scn['clock0']} " + " ".join([str(len(dacts))] + [s_act(a) for a in dacts] + ["1" if dflt.get("raises") else "0"])]
     impl = ["A ok"]
+    if scn.get("sliced"):
+        for ob in obs:
+            ob["handler_calls"] = list(r.handler_calls)
+        return lines, impl, obs      # Spec-only family: slices end at points the model does not have
     for n, ob in enumerate(obs):
         if ob.get("ambiguous"):
             obs = obs[:n]       # keep the unambiguous prefix only
